@@ -10,6 +10,9 @@ from pathlib import Path
 
 import numpy as np
 
+sys.path.insert(0, str(Path(__file__).resolve().parent))
+from indep import decode_indep  # noqa: E402
+
 from sedpack.io import Dataset, Metadata, DatasetStructure, Attribute
 from sedpack.io.flatbuffer import IterateShardFlatBuffer
 from sedpack.io.npz import IterateShardNP
@@ -91,7 +94,7 @@ def run_case(case, fmt, tmp, select=False):
         for sh in sl.shard_files:
             p = root / sh.file_infos[0].file_path
             try:
-                ex = decode(ds, p)
+                ex = decode_indep(ds, p)
             except Exception as e:  # noqa: BLE001
                 ex = f"undecodable:{type(e).__name__}"
             k = kval(sh.custom_metadata)
